@@ -258,17 +258,17 @@ def isDigit (b : UInt8) : Bool := 48 ≤ b.toNat && b.toNat ≤ 57
 
 def decVal (bs : Bytes) : Nat := bs.foldl (fun a b => a * 10 + (b.toNat - 48)) 0
 
-/-- `v, _ := strconv.ParseInt(s, 10, 64)`: 0 on a syntax error, CLAMPED on a range error (the error is dropped) -/
-def parseInt64 (s : Str) : Int :=
-  let (neg, digits) := match s with
-    | 43 :: r => (false, r)
-    | 45 :: r => (true, r)
-    | r => (false, r)
+/-- the digits of ParseInt after the optional sign: 0 on a syntax error, CLAMPED on a range error -/
+def parseMag (neg : Bool) (digits : Str) : Int :=
   if digits.isEmpty || !digits.all isDigit then 0
-  else
-    let v := decVal digits
-    if neg then (if v > 2 ^ 63 then -(2 ^ 63 : Int) else -(v : Int))
-    else (if v ≥ 2 ^ 63 then (2 ^ 63 - 1 : Int) else (v : Int))
+  else if neg then (if decVal digits > 2 ^ 63 then -(2 ^ 63 : Int) else -(decVal digits : Int))
+  else (if decVal digits ≥ 2 ^ 63 then (2 ^ 63 - 1 : Int) else (decVal digits : Int))
+
+/-- `v, _ := strconv.ParseInt(s, 10, 64)`: 0 on a syntax error, clamped on a range error (the error is dropped) -/
+def parseInt64 : Str → Int
+  | 43 :: r => parseMag false r
+  | 45 :: r => parseMag true r
+  | r => parseMag false r
 
 /-! ## conversions of types.go -/
 
